@@ -23,15 +23,25 @@ def make_tokens(rng, profile):
     rng.shuffle(pool)
 
     def pick(kind, tok, prefix=""):
-        if plain or rng.random() < 0.4 or not pool:
+        if plain or rng.random() < 0.4 or not pool or (kind == "name" and pool[-1].isdigit()):
+            # (digit strings are the numeric nameplates themselves)
             T.define(kind, tok, "%s%s-%s" % (prefix, kind, tok))
         else:
             T.define(kind, tok, prefix + pool.pop())
     share = profile.get("share_strings", True)
+    if not plain and rng.random() < 0.15:
+        # the empty string is a legal app id and side (and sorts first)
+        T.define("app", "a1", "")
+        T.define("side", "s1", "")
+        if "" in pool:
+            pool.remove("")
     for k, a in enumerate(["a1", "a2", "a3"]):
+        if a in T.fwd["app"]:
+            continue
         pick("app", a, prefix="%d" % (k + 1))     # keeps the sorted() order
     for s in ["s1", "s2", "s3", "s4"]:
-        pick("side", s)
+        if s not in T.fwd["side"]:
+            pick("side", s)
     for n in ["x", "y"]:
         pick("name", n)
     for m in ["m1", "m2"]:
